@@ -17,6 +17,7 @@ VTYPES = {
     "t24": ("cv::Triv<24,8>", 24, 8, True),
     "t16": ("cv::Triv<16,8>", 16, 8, True),
     "t8a4": ("cv::Triv<8,4>", 8, 4, True),
+    "t8": ("cv::Triv<8,1>", 8, 1, True),
     "b8": ("bool", 1, 1, True),
     "i32": ("std::int32_t", 4, 4, True),
     "obj": ("cv::Obj", 8, 8, False),
@@ -172,6 +173,9 @@ CORNER_LISTS = [
     PL("VaryingBigElemThenHigher", COUNT8, V("t16", 8), P("f32", 16)),
     PL("FixedBigElemThenHigher", P("u32", 4), F("t8a4", 4), P("f32", 8)),
     PL("VaryingMidElemThenHigher", P("u8"), COUNT8, V("t8a4", 4), F("u16", 8)),
+    # the largest alignment sits behind the varying span, is assumed (not computed) at its field, and the element ends
+    # at a trailing alignment between the first group's alignment and the storage alignment (seeded C03_m3)
+    PL("VaryingAssumedHighAfterSpan", P("t8"), COUNT8, V("t16", 8), P("f64", 16)),
 ]
 
 # ---- non-trivial value types -------------------------------------------------------------------
